@@ -263,6 +263,7 @@ func checkMain(args []string) int {
 		}
 	}
 	nOb, nDis, nKnown := 0, 0, 0
+	nCoverUndecided := 0
 	violations := 0
 	var obsOut []map[string]interface{}
 	var seenKnown []string
@@ -283,6 +284,16 @@ func checkMain(args []string) int {
 			// a return site that is unreachable under the contract's precondition on the
 			// registered tree (for instance a path the precondition rules out)
 			entry["expected_unreachable"] = true
+			obsOut = append(obsOut, entry)
+			continue
+		}
+		if o.Kind == "cover" && o.Status == "undecided" {
+			// a reachability probe the solvers could not settle within the tier's
+			// timeout: no evidence of vacuity (that needs an unsat answer), so it
+			// is recorded, not reported; the thorough tier retries with a longer
+			// timeout
+			entry["reachability_undecided"] = true
+			nCoverUndecided++
 			obsOut = append(obsOut, entry)
 			continue
 		}
@@ -397,6 +408,7 @@ func checkMain(args []string) int {
 			"obligations":                nOb,
 			"discharged":                 nDis,
 			"known_finding_obligations":  nKnown,
+			"reachability_probes_undecided": nCoverUndecided,
 			"known_findings_seen":        seenKnown,
 			"checker_cmd":                fmt.Sprintf("bin/gowp check %s %s (VC generation over go/ssa of /repo's working tree; z3-new incremental per path, undecided checks raced on z3 4.8.12 / z3 5.1.0 / cvc5 1.0.3)", prop, tier),
 			"trusted_base":               trusted,
